@@ -28,3 +28,69 @@
   false)))))
 ; AX reqF-def: reqF satisfies its defining equations
 (assert (forall ((v Val)) (! (reqRel v (reqF v)) :pattern ((reqF v)))))
+
+; ---------------------------------------------------------------------------------------------
+; bkli: intersection (C16), from the property statement.
+;   interF a b : what a and b have in common: a map keeps exactly the keys present in both; equal scalars are kept;
+;                present-in-both-but-different (including different kinds) becomes "$required"; lists keep the
+;                entries of a that also occur in b (in a's order, each once), and "$required" if nothing is common
+;                (two empty lists are identical and intersect to the empty list).
+;   nil on either side yields nil (nothing in common).
+; ---------------------------------------------------------------------------------------------
+(declare-fun interF (Val Val) Val)
+(define-fun-rec lmem ((x Val) (l Lst)) Bool (ite ((_ is LNil) l) false (or (= x (hd l)) (lmem x (tl l)))))
+(define-fun-rec keepCommon ((a Lst) (b Lst)) Lst
+  (ite ((_ is LNil) a) LNil (ite (lmem (hd a) b) (LCons (hd a) (keepCommon (tl a) b)) (keepCommon (tl a) b))))
+(define-fun interEnt ((av Val) (bv2 Val) (rv Val)) Bool
+  (ite (or (= av VAbsent) (= bv2 VAbsent)) (= rv VAbsent)
+  (ite (and (= av VNil) (= bv2 VNil)) (= rv VNil)
+  (ite (= (interF av bv2) VNil) (= rv VAbsent) (= rv (interF av bv2))))))
+(define-fun interRel ((a Val) (b Val) (r Val)) Bool
+  (ite (or (= b VNil) (= a VNil)) (= r VNil)
+  (ite ((_ is VMap) a)
+       (ite ((_ is VMap) b)
+            (and ((_ is VMap) r) (forall ((k String)) (interEnt (select (mc a) k) (select (mc b) k) (select (mc r) k))))
+            (= r (VStr "$required")))
+  (ite ((_ is VList) a)
+       (ite ((_ is VList) b)
+            (= r (VList (ite (and (= (keepCommon (ls a) (ls b)) LNil) (not (and (= (ls a) LNil) (= (ls b) LNil))))
+                             (LCons (VStr "$required") LNil) (keepCommon (ls a) (ls b)))))
+            (= r (VStr "$required")))
+  (ite (= a b) (= r a) (= r (VStr "$required")))))))
+; AX interF-def
+(assert (forall ((a Val) (b Val)) (! (interRel a b (interF a b)) :pattern ((interF a b)))))
+(define-fun-rec allIn ((a Lst) (b Lst)) Bool (ite ((_ is LNil) a) true (and (lmem (hd a) b) (allIn (tl a) b))))
+
+; ---------------------------------------------------------------------------------------------
+; bkld: round trip (C15), from the property statement: merging diff(target, base) onto base gives target.
+;   plainT v      : target trees are null-free and "$"-free (quantifier of the property)
+;   kindBad t b   : classes for which the statement does not hold on the pinned tree (finding F13): a container
+;                   changes kind where bkl's merge rules reject the override (scalar/list over a non-empty map,
+;                   scalar/map over a list), or a list pair outside listClean
+;   listClean t b : list pairs for which the emitted list layer is claimed: equal lists, or a removed entry that is
+;                   not a map (the whole-list $replace fallback). Entry-level patches (added / deleted map entries,
+;                   reordering, duplicates) are not claimed here.
+; ---------------------------------------------------------------------------------------------
+(define-fun dollarStr ((s String)) Bool (str.prefixof "$" s))
+(define-funs-rec (
+  (plainT ((v Val)) Bool)
+  (plainTL ((l Lst)) Bool))
+ ((ite ((_ is VStr) v) (not (dollarStr (sv v)))
+  (ite ((_ is VList) v) (plainTL (ls v))
+  (ite ((_ is VMap) v) (forall ((k String)) (=> (not (= (select (mc v) k) VAbsent)) (and (not (dollarStr k)) (plainT (select (mc v) k)))))
+  (not (= v VNil)))))
+  (ite ((_ is LNil) l) true (and (plainT (hd l)) (plainTL (tl l))))))
+(define-fun-rec hasNonMapRemoved ((bl Lst) (tl2 Lst)) Bool
+  (ite ((_ is LNil) bl) false
+       (or (and (not (lmem (hd bl) tl2)) (not ((_ is VMap) (hd bl)))) (hasNonMapRemoved (tl bl) tl2))))
+(define-fun listClean ((t Lst) (b Lst)) Bool (or (= t b) (hasNonMapRemoved b t)))
+(define-funs-rec (
+  (kindBad ((t Val) (b Val)) Bool))
+ ((ite ((_ is VMap) t)
+       (ite ((_ is VMap) b) (exists ((k String)) (and (not (= (select (mc t) k) VAbsent)) (not (= (select (mc b) k) VAbsent))
+                                                      (kindBad (select (mc t) k) (select (mc b) k))))
+            ((_ is VList) b))
+  (ite ((_ is VList) t)
+       (ite ((_ is VList) b) (not (listClean (ls t) (ls b)))
+            (and ((_ is VMap) b) (not (= (mlen (mc b)) 0))))
+  (ite ((_ is VMap) b) (not (= (mlen (mc b)) 0)) ((_ is VList) b))))))
